@@ -14,7 +14,11 @@ pub mod ax {
   pub broadcast proof fn ax_sub(a: f32, b: f32) ensures rv(#[trigger] SubSpec::sub_spec(a, b)) == rv(a) - rv(b) { admit(); }
   pub broadcast proof fn ax_obeys_mul() ensures #[trigger] <f32 as MulSpec<f32>>::obeys_mul_spec() { admit(); }
   pub broadcast proof fn ax_mul_req(a: f32, b: f32) ensures #[trigger] MulSpec::mul_req(a, b) { admit(); }
-  pub broadcast proof fn ax_mul(a: f32, b: f32) ensures rv(#[trigger] MulSpec::mul_spec(a, b)) == rv(a) * rv(b) { admit(); }
+  // products are introduced through `rmul` so that commutativity (exact for IEEE multiplication as well) is available
+  // to the solver, which treats non-linear real multiplication as uninterpreted outside by(nonlinear_arith)
+  pub open spec fn rmul(a: real, b: real) -> real { a * b }
+  pub broadcast proof fn lemma_rmul_comm(a: real, b: real) ensures #[trigger] rmul(a, b) == rmul(b, a) { assert(a * b == b * a) by(nonlinear_arith); }
+  pub broadcast proof fn ax_mul(a: f32, b: f32) ensures rv(#[trigger] MulSpec::mul_spec(a, b)) == rmul(rv(a), rv(b)) { admit(); }
   pub broadcast proof fn ax_obeys_div() ensures #[trigger] <f32 as DivSpec<f32>>::obeys_div_spec() { admit(); }
   pub broadcast proof fn ax_div_req(a: f32, b: f32) ensures #[trigger] DivSpec::div_req(a, b) { admit(); }
   pub broadcast proof fn ax_div(a: f32, b: f32) ensures rv(b) != 0real ==> rv(#[trigger] DivSpec::div_spec(a, b)) == rv(a) / rv(b) { admit(); }
@@ -26,7 +30,7 @@ pub mod ax {
       (if rv(a) < rv(b) { Some(Ordering::Less) } else if rv(a) == rv(b) { Some(Ordering::Equal) } else { Some(Ordering::Greater) }) { admit(); }
   pub broadcast proof fn ax_obeys_eq() ensures #[trigger] <f32 as PartialEqSpec<f32>>::obeys_eq_spec() { admit(); }
   pub broadcast proof fn ax_eq(a: f32, b: f32) ensures (#[trigger] PartialEqSpec::eq_spec(&a, &b)) == (rv(a) == rv(b)) { admit(); }
-  pub broadcast group float_real { ax_obeys_add, ax_add_req, ax_add, ax_obeys_sub, ax_sub_req, ax_sub, ax_obeys_mul, ax_mul_req, ax_mul,
+  pub broadcast group float_real { ax_obeys_add, ax_add_req, ax_add, ax_obeys_sub, ax_sub_req, ax_sub, ax_obeys_mul, ax_mul_req, ax_mul, lemma_rmul_comm,
       ax_obeys_div, ax_div_req, ax_div, ax_lit0, ax_lit1, ax_lit_milli, ax_obeys_pcmp, ax_pcmp, ax_obeys_eq, ax_eq }
 }
 pub use ax::*;
